@@ -175,6 +175,9 @@ def read_fragment_smiles(smiles_str,
 
     # we have just a single atom so no need for any annotations
     if len(mol_graph) == 1:
+        # a single atom can still be a marked substituent (`[C;x=S][$a]/[$b]`): keep its slash mark
+        nx.set_node_attributes(mol_graph, {idx: val[-1] for idx, val in ez_isomers.items()},
+                               'ez_isomer_class')
         # we set the hcount for all non-hydrogen elements
         if mol_graph.nodes[0]['element'] != 'H':
             mol_graph.nodes[0]['hcount'] = 0
